@@ -1,5 +1,6 @@
 """C12 - groups as sorted sets (clauses: TAINT unchecked append, DOM/SELECT insert/contains/&, DISPATCH+ROLE merge arms, ROLE ancestor queries)"""
 import re
+from engines import positive_edges
 from engines import RefDeriv
 from engines import check_complete_iteration
 from prov import Prov, params_of, field_names
@@ -76,6 +77,73 @@ def run(ck, prog, ctx):
         msg = ("%s appends unchecked an id %s" % (b.short, "taken from iterating a group" if ok else ("that is the caller-supplied `%s` (order/uniqueness not checked)" % bad_params[0] if bad_params else "that does not come from iterating a group")))
         ck.ob("TAINT", "append/%s/%d" % (base, i), ok, msg, where=b.where(t.line))
     ck.floor("TAINT", "unchecked append sites", len(sinks), 8)
+    # bulk appends: a whole slice / group appended to an id vector keeps it sorted and duplicate free only if the vector is
+    # still empty, or if its last id is STRICTLY below the first appended id
+    BULK = {"extend_from_slice", "extend", "append", "insert_many", "insert_from_slice", "extend_from_within"}
+    nb = 0
+    for b in prog.production():
+        if b.kind not in ("Fn", "AssocFn", "Closure"):
+            continue
+        for bi, t in b.calls():
+            c = t.callee
+            if c.method not in BULK or not re.search(r"SmallVec|Vec<", (c.def_args or "") + (c.name or "")) or "HpoTermId" not in (c.def_args or "") + (c.name or ""):
+                continue
+            ra = pvn.of_operand(b, t.args[0])
+            if not is_ids_place_atoms(ra):
+                continue
+            nb += 1
+            # (a) fresh receiver: the group was created in this body and nothing was added before
+            fresh_src = any(a[0] == "call" and a[3] == b.id and a[1].rsplit("::", 1)[-1] in ("with_capacity", "new", "default") for a in ra)
+            earlier = [(obi, ot) for obi, ot in b.calls() if obi != bi and ot.callee.method in (BULK | {"push", "insert", "insert_unchecked"}) and ot.args and is_ids_place_atoms(pvn.of_operand(b, ot.args[0])) and b.dominates(obi, bi)]
+            # the receiver's root local is the result of a constructor call in this body
+            root = t.args[0].place.local if t.args[0].place is not None else None
+            seen_l = set()
+            ctor_root = False
+            while root is not None and root not in seen_l:
+                seen_l.add(root)
+                ds = pvn.defs(b).get(root, [])
+                if len(ds) != 1:
+                    break
+                kind_, pos_, d_ = ds[0]
+                if kind_ == "call":
+                    ctor_root = d_.callee.method in ("with_capacity", "new", "default")
+                    break
+                if d_.rv["k"] == "ref":
+                    root = d_.rv["place"].local
+                elif d_.rv["k"] == "use" and d_.rv["op"].place is not None:
+                    root = d_.rv["op"].place.local
+                else:
+                    break
+            if fresh_src and not earlier and ctor_root:
+                ck.ob("TAINT", "bulk-append/%s" % b.short, True, "%s copies a whole (sorted) id vector into a freshly created group" % b.short, where=b.where(t.line))
+                continue
+            # (b) guarded by last(receiver) < first(appended)
+            verdict, how = None, "no ordering test between the last id of the receiver and the first appended id dominates the append"
+            for gbi, gt in b.calls():
+                gc = gt.callee
+                if gc.trait not in ("std::cmp::PartialOrd",) or gc.method not in ("lt", "le", "gt", "ge") or len(gt.args) != 2:
+                    continue
+                sides = []
+                for a in gt.args:
+                    at = pvn.of_operand(b, a)
+                    ms = {x[1].rsplit("::", 1)[-1] for x in at if x[0] == "call" and x[3] == b.id}
+                    sides.append("last" if "last" in ms and "first" not in ms else "first" if "first" in ms and "last" not in ms else "?")
+                if sorted(sides) != ["first", "last"]:
+                    continue
+                pos_edges = positive_edges(b, pvn, gbi)
+                if not any(b.edge_dominates(e, bi) for e in pos_edges):
+                    continue
+                m = gc.method
+                # normalise to  last OP first
+                if sides == ["first", "last"]:
+                    m = {"lt": "gt", "le": "ge", "gt": "lt", "ge": "le"}[m]
+                if m == "lt":
+                    verdict, how = True, "guarded by last < first"
+                elif m == "le":
+                    verdict, how = False, "guarded by last <= first: when the two ids are EQUAL the id is stored twice"
+                else:
+                    verdict, how = False, "guarded by last %s first: the appended ids are not behind the receiver's" % {"gt": ">", "ge": ">="}[m]
+            ck.ob("TAINT", "bulk-append/%s" % b.short, bool(verdict), "%s appends a whole id vector to a non-empty group, %s" % (b.short, how), where=b.where(t.line))
     # whole-vector constructions: `HpoGroup { ids: <something built from caller data> }` is only sorted and duplicate free
     # if the data was sorted and THEN deduplicated before it is stored
     ncons = 0
